@@ -57,3 +57,22 @@ package bal_gslb
 //@   modifies *
 //@   ensures[no_backend_once_the_retry_budget_is_spent] result1 == nil ==> old(req.RetryTime) <= old(bal.retryMax) + old(bal.crossRetry)
 //@   ensures[the_retry_counter_never_goes_back] req.RetryTime >= old(req.RetryTime)
+
+// ---- C02 / C03: Reload leaves the cached summary (totalWeight, single, avail) consistent with the list ----
+// The summary is computed by the last loop of Reload over the merged, sorted list; whatever the merge and the
+// sort did, a successful Reload stores a list and a summary that satisfy wfGslb, the precondition under which
+// subClusterBalance is proved.
+
+//@ func (*BalanceGslb).Reload
+//@   props C02,C03
+//@   requires bal != nil
+//@   modifies *
+//@   assume[the_merged_list_holds_sub_clusters_with_bounded_weights] at "if sub.weight > 0" :: wfSubs(subListNew)
+//@   note the merged list is assumed to hold non-nil sub-clusters with weights below 2^40 (the two merge loops only append existing or new sub-clusters; sort.Sort permutes)
+//@   let c := rangeindex + 1
+//@   loop 3 invariant[count] 0 <= c && c <= len(subListNew) && (c > 0 ==> wfSubs(subListNew)) && bal != nil
+//@   loop 3 invariant[the_total_is_the_sum_of_the_positive_weights] totalWeight == pwsum(subListNew, c) && 0 <= totalWeight && totalWeight <= c * 1099511627776
+//@   loop 3 invariant[the_number_of_positive_weights] 0 <= availableNum && availableNum <= c && (availableNum == 0 ==> totalWeight == 0 && (forall k int :: 0 <= k && k < c ==> subListNew[k].weight <= 0))
+//@   loop 3 invariant[the_last_positive_one] availableNum >= 1 ==> 0 <= lastAvailIndex && lastAvailIndex < c && subListNew[lastAvailIndex].weight > 0
+//@   loop 3 invariant[a_single_positive_one_is_the_only_one] availableNum == 1 ==> pwsum(subListNew, lastAvailIndex) == 0 && subListNew[lastAvailIndex].weight == totalWeight && (forall k int :: 0 <= k && k < c && k != lastAvailIndex ==> subListNew[k].weight <= 0)
+//@   ensures[a_successful_reload_leaves_a_consistent_summary] result0 == nil ==> wfGslb(bal)
